@@ -507,8 +507,10 @@ fn run_case(bin: &str, ex: &Example, file: &str, case: &Case, args: &[String]) -
 struct Local { runs: u64, cases: u64, infeasible: u64, distinct_objectives: std::collections::BTreeSet<i64>, samples: Vec<Value> }
 
 pub fn build_examples(rep: &Reporter) -> Option<String> {
-    let target = format!("{}/.build/examples", verif_dir());
-    let out = Command::new("cargo").args(["build", "--examples", "-p", "ddo", "--offline"]).current_dir("/repo").env("CARGO_TARGET_DIR", &target).env("CARGO_PROFILE_DEV_OPT_LEVEL", "1").env("CARGO_NET_OFFLINE", "true").output();
+    let build_root = std::env::var("VERIF_BUILD").unwrap_or_else(|_| format!("{}/.build", verif_dir()));
+    let repo = std::env::var("VERIF_REPO").unwrap_or_else(|_| "/repo".to_string());
+    let target = format!("{}/examples", build_root);
+    let out = Command::new("cargo").args(["build", "--examples", "-p", "ddo", "--offline"]).current_dir(&repo).env("CARGO_TARGET_DIR", &target).env("CARGO_PROFILE_DEV_OPT_LEVEL", "1").env("CARGO_NET_OFFLINE", "true").output();
     match out {
         Ok(o) if o.status.success() => Some(format!("{}/debug/examples", target)),
         Ok(o) => { rep.engine_error(format!("the examples do not build: {}", String::from_utf8_lossy(&o.stderr).lines().rev().take(10).collect::<Vec<_>>().join(" | "))); None }
@@ -521,7 +523,7 @@ pub fn check(tier: &str) -> i32 {
     let th = rep.thorough();
     let only: Option<String> = std::env::var("VERIF_EXAMPLE").ok();
     let bindir = match build_examples(&rep) { Some(b) => b, None => return rep.finish("exploration", json!({"evaluations": 0, "distinct_nontrivial": 0, "rule": "build failed", "samples": []}), vec![]) };
-    let scratch = format!("{}/.build/ex-scratch/{}", verif_dir(), std::process::id());
+    let scratch = format!("{}/ex-scratch/{}", std::env::var("VERIF_BUILD").unwrap_or_else(|_| format!("{}/.build", verif_dir())), std::process::id());
     let _ = std::fs::create_dir_all(&scratch);
     let exs = examples(th);
     start_watchdog();
